@@ -41,9 +41,18 @@ type C02Case struct {
 	B        OrderPlan `json:"plan_b"`
 	// Proc: "in separate processes" - the real CLI is run twice as child processes (world P), once under
 	// each order plan, over the same simulated home directory; stdout must be byte-identical.
+	// Warmup: other requests sent to database A before the measured calls (B stays fresh): an answer must
+	// not depend on what the database was asked before.
+	Warmup []C02Warm `json:"warmup,omitempty"`
 	Proc    bool     `json:"separate_processes,omitempty"`
 	Markers []string `json:"markers,omitempty"` // project marker files: the context analyzer's boost maps are walked too
 	Format  string   `json:"format,omitempty"`
+}
+
+type C02Warm struct {
+	Query string `json:"query"`
+	Opts  Opts   `json:"opts"`
+	Entry int    `json:"entry"`
 }
 
 var c02Entries = []string{"SearchUniversal", "SearchUniversal", "SearchUniversal", "Search", "SearchWithOptions", "SearchWithPipelineOptions", "SearchWithFuzzy", "SearchWithNLP"}
@@ -90,6 +99,20 @@ func genC02(rt *rapid.T) C02Case {
 	c.NSuggest = rapid.SampledFrom([]int{0, 1, 3, 5}).Draw(rt, "nsugg")
 	c.A = genPlan(rt, "a")
 	c.B = genPlan(rt, "b")
+	if !c.Shipped && rapid.IntRange(0, 2).Draw(rt, "haswarm") == 0 {
+		c.Warmup = rapid.SliceOfN(rapid.Custom(func(rt *rapid.T) C02Warm {
+			w := C02Warm{Query: c.Query, Opts: c.Opts, Entry: c.Entry}
+			switch rapid.IntRange(0, 3).Draw(rt, "warmkind") {
+			case 0: // the same request with one option changed (often the limit)
+				w.Opts = mutateOpt(rt, c.Opts, rapid.SampledFrom([]string{"limit", "limit", "limit", "nlp", "fuzzy", "cap", "boosts", "pboost"}).Draw(rt, "warmfield"))
+			case 1:
+				w.Query = genQuery(rt, 4)
+			case 2:
+				w.Entry = rapid.IntRange(0, len(c02Entries)-1).Draw(rt, "warmentry")
+			}
+			return w
+		}), 1, 4).Draw(rt, "warmup")
+	}
 	if !c.Shipped && rapid.IntRange(0, 59).Draw(rt, "proc") == 30 {
 		c.Proc = true
 		c.Markers = rapid.SliceOfNDistinct(rapid.SampledFrom(c17Markers), 0, 4, rapid.ID[string]).Draw(rt, "markers")
@@ -140,7 +163,7 @@ func c02Search(db *database.Database, entry int, q string, o database.SearchOpti
 }
 
 // observe loads the files under one order plan and searches twice.
-func c02Observe(c C02Case, main, personal []byte, plan OrderPlan) c02Obs {
+func c02Observe(c C02Case, main, personal []byte, plan OrderPlan, warm []C02Warm) c02Obs {
 	var ob c02Obs
 	disk := simos.NewDisk()
 	simos.Mount(disk, nil)
@@ -161,6 +184,12 @@ func c02Observe(c C02Case, main, personal []byte, plan OrderPlan) c02Obs {
 	if err != nil {
 		ob.LoadErr = err.Error()
 		return ob
+	}
+	for _, w := range warm {
+		func() {
+			defer func() { _ = recover() }() // a crash of a warm-up request is not this property's subject
+			_ = c02Search(db, w.Entry, w.Query, w.Opts.toDB())
+		}()
 	}
 	ob.First = resOf(c02Search(db, c.Entry, c.Query, c.Opts.toDB()))
 	ob.Second = resOf(c02Search(db, c.Entry, c.Query, c.Opts.toDB()))
@@ -298,8 +327,11 @@ func runC02(c C02Case) *Outcome {
 			personal = yamlOf(c.Personal)
 		}
 	}
-	a := c02Observe(c, main, personal, c.A)
-	b := c02Observe(c, main, personal, c.B)
+	a := c02Observe(c, main, personal, c.A, c.Warmup)
+	b := c02Observe(c, main, personal, c.B, nil)
+	if len(c.Warmup) > 0 {
+		o.Probes["c02.warmed_up"] = 1
+	}
 	entry := c02Entries[c.Entry%len(c02Entries)]
 	fail := func(sig, f string, args ...any) *Outcome {
 		o.Violation = fmt.Sprintf(f, args...) + fmt.Sprintf("\n  entry point %s, query %q, options %+v\n  map loops given a non-canonical order: plan A {%s}; plan B {%s}", entry, c.Query, c.Opts, sitesOf(a.Permuted), sitesOf(b.Permuted))
